@@ -23,6 +23,7 @@ import (
 	"strconv"
 	"strings"
 	"sync"
+	"sync/atomic"
 	"syscall"
 	"time"
 )
@@ -32,7 +33,7 @@ type propCfg struct {
 	quickRace, thoroughRace int // runs under the race detector (0 = no race binary)
 	level                   string
 	needsCLI                bool
-	acceptExitDeath         bool // a worker killed by goalign's own ExitWithMessage (from a goroutine the harness cannot recover in) is an accepted outcome
+	acceptExitDeath         bool  // a worker killed by goalign's own ExitWithMessage (from a goroutine the harness cannot recover in) is an accepted outcome
 	vlimitKB                int64 // address-space limit for non-race workers (0 = none)
 	stallS                  int   // seconds without journal progress before a worker is declared stalled
 	engine                  string
@@ -43,32 +44,32 @@ type propCfg struct {
 var e1Assumptions = []string{"testing/synctest reports quiescence correctly (go1.26.8)", "a goroutine runs alone between two yield points except for the few instructions a goroutine woken through goalign's own channels executes before it parks", "the race detector's shadow memory (4 cells per 8 bytes) keeps the conflicting access: runs are kept small in race mode", "seeded search samples schedules, it does not enumerate them"}
 
 var props = map[string]propCfg{
-	"C16": {quick: 3000, thorough: 300000, quickRace: 800, thoroughRace: 60000, level: "exploration", stallS: 120, engine: "E1 seeded goroutine scheduler + race detector",
-		components: "real: phaser.Phase, SeqBag.SequencesChan producer goroutine, worker pool, closer goroutine, pairwise aligner, translation, SeqBag.LongestORF; environment: the harness is the consumer of the result channel (one more scheduled goroutine), yield points spliced by seamgen; stubs: none",
+	"C16": {quick: 3000, thorough: 300000, quickRace: 800, thoroughRace: 60000, level: "exploration", stallS: 40, engine: "E1 seeded goroutine scheduler + race detector",
+		components:  "real: phaser.Phase, SeqBag.SequencesChan producer goroutine, worker pool, closer goroutine, pairwise aligner, translation, SeqBag.LongestORF; environment: the harness is the consumer of the result channel (one more scheduled goroutine), yield points spliced by seamgen; stubs: none",
 		assumptions: e1Assumptions},
 	"C02": {quick: 150000, thorough: 8000000, level: "exploration", stallS: 120, engine: "E2 simulated stream + real temp files + E1 seeded scheduler for the multi-alignment stream",
-		components: "real: the 6 writers, the 6 lexers and parsers, utils.OpenWriteFile / CloseWriteFile / GetReader / GetReaderFromReader / ReadAlign / ParseAlignmentAuto / ParseMultiAlignmentsAuto incl. its parser goroutine and the close of the file, gzip and xz layers, real files in the run's temp directory; environment: simFile (fragmentation, empty reads, EOF style, close accounting), yield points spliced by seamgen; stubs: none",
+		components:  "real: the 6 writers, the 6 lexers and parsers, utils.OpenWriteFile / CloseWriteFile / GetReader / GetReaderFromReader / ReadAlign / ParseAlignmentAuto / ParseMultiAlignmentsAuto incl. its parser goroutine and the close of the file, gzip and xz layers, real files in the run's temp directory; environment: simFile (fragmentation, empty reads, EOF style, close accounting), yield points spliced by seamgen; stubs: none",
 		assumptions: []string{"which characters a format can represent in a name is a table written from the statement and the format definitions (nameExtra in sim/c02.go): Nexus punctuation, '#' and '/' for Stockholm, '>' for FASTA are excluded; names equal to a format keyword are not generated", "no disk faults: the property does not quantify over them and goalign has no seam under os.Create/os.Open", "testing/synctest reports quiescence correctly (go1.26.8)"}},
 	"C14": {quick: 40000, thorough: 2000000, level: "exploration", stallS: 120, engine: "E3 map-iteration-order seam (in-process)",
-		components: "real: every statistic of align.Alignment / SeqBag / Sequence / CountProfile named by the property plus the operations that inherit the majority character (MaskUnique, MaskOccurences, Mask with MAJ, RemoveMajorityCharacterSites); environment: verifrt.Keys behind every `range` over a map (spliced by seamgen, order = PRNG keyed on map seed, site and call count); stubs: none",
+		components:  "real: every statistic of align.Alignment / SeqBag / Sequence / CountProfile named by the property plus the operations that inherit the majority character (MaskUnique, MaskOccurences, Mask with MAJ, RemoveMajorityCharacterSites); environment: verifrt.Keys behind every `range` over a map (spliced by seamgen, order = PRNG keyed on map seed, site and call count); stubs: none",
 		assumptions: []string{"every map iteration of goalign goes through the seam: seamgen rewrites each range statement whose operand has map type and reports the count in coverage.seams", "floating sums are compared to 1e-12 relative: the statement's 'same answer' is not read as the last bit of a re-associated sum", "the naive definitions are evaluated on the simulated runs but owe nothing to the simulation; where the documentation is ambiguous (N/X in variable and informative sites, lower case in entropy) both readings are accepted or the clause is skipped"}},
 	"C10": {quick: 60000, thorough: 2000000, level: "exploration", stallS: 120, engine: "E3 seeded replay of the product's random stream under different map orders and clocks (in-process)",
-		components: "real: the 12 randomised operations of align.Alignment / SeqBag on top of the global math/rand stream seeded through rand.Seed as cmd/root.go does; environment: map-order and clock seams spliced by seamgen; stubs: none",
+		components:  "real: the 12 randomised operations of align.Alignment / SeqBag on top of the global math/rand stream seeded through rand.Seed as cmd/root.go does; environment: map-order and clock seams spliced by seamgen; stubs: none",
 		assumptions: []string{"the harness module sets godebug randseednop=0 so that rand.Seed seeds the global stream as it does in the shipped binary (built from a go 1.21 module)", "support claims: 400 product seeds per run, every required outcome has probability >= 1/6 per execution on correct code, so a missing outcome has probability below 1e-30 (union bound over at most 25 outcomes)", "fractions are dyadic and lengths multiples of 4 so that floor(frac*L) is the same in real and floating-point arithmetic"}},
 	"C01": {quick: 2000000, thorough: 150000000, level: "exploration", stallS: 120, engine: "E4 operation histories against a list-of-rows reference model",
-		components: "real: align.Alignment / align.SeqBag and every operation of the history (AddSequence, Append, Concat, Rename, RenameRegexp, CleanNames, TrimNames, TrimNamesAuto, AppendSeqIdentifier, Sort, ShuffleSequences, FilterLength, Deduplicate, RemoveGapSeqs, RemoveGapSites, TrimSequences, Translate, Clone, Sample, Clear, SubAlign, Unalign, Replace, ToUpper, ToLower, IgnoreIdentical) and all accessors; environment: the simulated client (history generator), per-operation random seeds, map-order seam; stubs: none",
+		components:  "real: align.Alignment / align.SeqBag and every operation of the history (AddSequence, Append, Concat, Rename, RenameRegexp, CleanNames, TrimNames, TrimNamesAuto, AppendSeqIdentifier, Sort, ShuffleSequences, FilterLength, Deduplicate, RemoveGapSeqs, RemoveGapSites, TrimSequences, Translate, Clone, Sample, Clear, SubAlign, Unalign, Replace, ToUpper, ToLower, IgnoreIdentical) and all accessors; environment: the simulated client (history generator), per-operation random seeds, map-order seam; stubs: none",
 		assumptions: []string{"the reference model implements each operation from its documentation comment; where the comment does not fix the result (name cleaning / trimming, gap and character filters, translation, trimming) the operation is held to the invariants only and the model is re-read from the container", "by-name lookups are only compared for names that are unique in the container (the statement excepts names the caller made equal)", "no goroutine, stream or clock is involved: what is simulated is the client's history, including operations that must be rejected"}},
 	"C19": {quick: 400000, thorough: 20000000, level: "exploration", stallS: 120, engine: "E4 operation histories over a pool of live objects",
-		components: "real: the 7 writers, the statistics, Consensus, Entropy, Pssm, CountProfile, DistMatrix (its own goroutines, unscheduled here), protein MLDist, the pairwise aligner, LongestORF, Unalign, Transpose, BuildBootstrap, Clone, CloneSeqBag, SubAlign, SelectSites, Sequence.Clone and the in-place mutators; environment: the simulated client (history generator), map-order seam; stubs: none",
+		components:  "real: the 7 writers, the statistics, Consensus, Entropy, Pssm, CountProfile, DistMatrix (its own goroutines, unscheduled here), protein MLDist, the pairwise aligner, LongestORF, Unalign, Transpose, BuildBootstrap, Clone, CloneSeqBag, SubAlign, SelectSites, Sequence.Clone and the in-place mutators; environment: the simulated client (history generator), map-order seam; stubs: none",
 		assumptions: []string{"independence is only demanded of what the statement names (clones, sub-alignments, site selections, cloned sequences); Sample, Append and SequenceChar share storage by design and are not alarmed", "DistMatrix and Phase under seeded schedules are covered by C08 and C16, whose runs snapshot their inputs; here DistMatrix runs with real unscheduled goroutines", "sequences that contain no ORF make Phase crash in a worker (outside C16's quantifier), so Phase is not part of these histories"}},
 	"C11": {quick: 5000, thorough: 300000, level: "exploration", stallS: 300, needsCLI: true, engine: "E3 process-level determinism (+ E1 seeded scheduler for the commands that own a worker pool)",
-		components: "real: the goalign binary built from the working tree (default go toolchain, seam overlay inactive unless VERIF_MAPSEED / VERIF_CLOCK are set), real files, real OS pipes, real process exits; in sched mode cmd.RootCmd executed in-process with every goroutine of the command under the seeded scheduler; environment: map-order and clock seams, --threads, GOMAXPROCS; stubs: none",
+		components:  "real: the goalign binary built from the working tree (default go toolchain, seam overlay inactive unless VERIF_MAPSEED / VERIF_CLOCK are set), real files, real OS pipes, real process exits; in sched mode cmd.RootCmd executed in-process with every goroutine of the command under the seeded scheduler; environment: map-order and clock seams, --threads, GOMAXPROCS; stubs: none",
 		assumptions: []string{"at process level the OS schedules goroutines: phase / phasent are therefore executed with one thread in both configurations there, and their thread clause is decided in sched mode under two seeded schedules", "stderr is not compared (log.Print stamps real time inside the standard library; warnings are not output)", "every map iteration and clock read of goalign goes through the seams (coverage.seams lists what seamgen rewrote)"}},
 	"C03": {quick: 2000000, thorough: 150000000, level: "fault_enumeration", stallS: 60, vlimitKB: 8 << 20, acceptExitDeath: true, engine: "E2 simulated stream with fault injection",
-		components: "real: the 6 lexers and 7 parsers (fasta, phylip strict/relaxed incl. ParseMultiple, nexus, clustal, stockholm, partition), utils.ParseAlignmentAuto, utils.ParseMultiAlignmentsAuto and its parser goroutine, bufio; environment: simFile (io.Reader + io.Closer: fragmentation, empty reads, EOF style, read errors, post-EOF read budget), os.Exit seam; stubs: none",
+		components:  "real: the 6 lexers and 7 parsers (fasta, phylip strict/relaxed incl. ParseMultiple, nexus, clustal, stockholm, partition), utils.ParseAlignmentAuto, utils.ParseMultiAlignmentsAuto and its parser goroutine, bufio; environment: simFile (io.Reader + io.Closer: fragmentation, empty reads, EOF style, read errors, post-EOF read budget), os.Exit seam; stubs: none",
 		assumptions: []string{"a parser that asks the stream for more data 10000 times after the end was reported is looping (the budget is far above what bufio and the lexers need: they stop at the first EOF token)", "an out-of-memory death of a worker under an 8 GiB address-space limit counts as a crash caused by the input", "seeded search samples the fault space; only the stated sweeps (every prefix / every structural byte of the corpus files) are exhaustive"}},
-	"C08": {quick: 20000, thorough: 2000000, quickRace: 5000, thoroughRace: 400000, level: "exploration", stallS: 120, engine: "E1 seeded goroutine scheduler + race detector",
-		components: "real: dna.DistMatrix, its producer/worker goroutines, sync.Mutex, sync.WaitGroup, channels, all 7 estimators; environment: model wrapper behind the public DistModel interface (delegates; injects errors), yield points spliced by seamgen; stubs: none",
+	"C08": {quick: 20000, thorough: 2000000, quickRace: 5000, thoroughRace: 400000, level: "exploration", stallS: 40, engine: "E1 seeded goroutine scheduler + race detector",
+		components:  "real: dna.DistMatrix, its producer/worker goroutines, sync.Mutex, sync.WaitGroup, channels, all 7 estimators; environment: model wrapper behind the public DistModel interface (delegates; injects errors), yield points spliced by seamgen; stubs: none",
 		assumptions: []string{"testing/synctest reports quiescence correctly (go1.26.8)", "a goroutine runs alone between two yield points except for the few instructions a goroutine woken through goalign's own channels executes before it parks", "the race detector's shadow memory (4 cells per 8 bytes) keeps the conflicting access: runs are kept to <= 66 pairs in race mode", "seeded search samples schedules, it does not enumerate them"}},
 }
 
@@ -273,13 +274,13 @@ func main() {
 // ---------------------------------------------------------------------
 
 type builder struct {
-	cfg      propCfg
-	id       string
-	overlay  string
-	bin      string
-	raceBin  string
-	cli      string
-	seams    map[string]interface{}
+	cfg     propCfg
+	id      string
+	overlay string
+	bin     string
+	raceBin string
+	cli     string
+	seams   map[string]interface{}
 }
 
 func (b *builder) build(plain, race bool) {
@@ -368,14 +369,15 @@ func (b *builder) build(plain, race bool) {
 // ---------------------------------------------------------------------
 
 type supervisor struct {
-	b    *builder
-	id   string
-	cfg  propCfg
-	tier string
-	seed uint64
-	nw   int
-	wseq int
-	mu   sync.Mutex
+	stalls int32 // workers that had to be killed because a run made no progress (atomic)
+	b      *builder
+	id     string
+	cfg    propCfg
+	tier   string
+	seed   uint64
+	nw     int
+	wseq   int
+	mu     sync.Mutex
 }
 
 type workerRun struct {
@@ -654,7 +656,7 @@ func classifyDeath(stderr string, stalled bool) string {
 		if i >= 0 {
 			for _, g := range strings.Split(stderr[i:], "\n\n") {
 				hdr := strings.SplitN(g, "\n", 2)[0]
-				if strings.Contains(hdr, "[running") || strings.Contains(hdr, "[runnable") {
+				if strings.Contains(hdr, "[running") || strings.Contains(hdr, "[runnable") || strings.Contains(hdr, "Mutex") || strings.Contains(hdr, "semacquire") {
 					if fs := goalignFuncs(g); len(fs) > 0 {
 						top = fs[0]
 						break
@@ -707,6 +709,13 @@ func (s *supervisor) batch(race bool, runs int) BatchResult {
 				wr := s.spawn(job, 6*time.Hour)
 				results[w] = append(results[w], wr)
 				if !wr.died && !wr.stall {
+					break
+				}
+				if wr.stall {
+					atomic.AddInt32(&s.stalls, 1)
+				}
+				if atomic.LoadInt32(&s.stalls) >= 6 {
+					// the same hang again and again: enough evidence, do not spend the stall timeout hundreds of times
 					break
 				}
 				if wr.lastB == -2 {
@@ -1032,8 +1041,8 @@ func (s *supervisor) conclude(total BatchResult, t0 time.Time, writeEvidence boo
 				final := cand.Replay
 				fclass, fdetail := rclass, rdetail
 				kf := matchKnown(known, s.id, fclass)
-				if kf == nil {
-					// shrink (recorded findings are not shrunk again)
+				if kf == nil && !strings.HasPrefix(fclass, "procdeath:stall") {
+					// shrink (recorded findings are not shrunk again; a stall costs the whole watchdog delay per attempt)
 					if rclass != rp.Class {
 						rp.Class, rp.Detail = rclass, rdetail
 						jb, _ := json.MarshalIndent(rp, "", " ")
